@@ -327,6 +327,24 @@ Proof.
   eexists. eexists. eexists. split; [vm_compute; reflexivity |]. split; [discriminate | reflexivity].
 Qed.
 
+(* no AUTO_INCREMENT column: the listed values (0 included) are the keys of the inserted rows *)
+Theorem at_insert_plain_exact : forall trk krs t r0,
+  at_insert_plain trk krs (Some (map fst krs)) t = r0 ->
+  r0 = Err EDupKey
+  \/ exists t', r0 = Ok t' [] (img_of trk t' (map fst krs))
+       /\ map fst (img_of trk t' (map fst krs)) = map fst krs
+       /\ (forall k r, In (k, r) krs -> lookup k t = None /\ lookup k t' = Some r)
+       /\ (forall k, ~ In k (map fst krs) -> lookup k t' = lookup k t).
+Proof.
+  intros trk krs t r0 H. unfold at_insert_plain in H.
+  destruct (insert_rows krs t) as [t' |] eqn:Hi; [| left; symmetry; exact H].
+  right. exists t'. destruct (insert_rows_spec _ _ _ Hi) as [_ [Habs [Hin Hout]]].
+  split; [symmetry; exact H |]. split.
+  - apply img_of_present. intros k Hk. apply in_map_iff in Hk. destruct Hk as [[k1 r1] [<- Hkr]]. cbn. rewrite (Hin _ _ Hkr). discriminate.
+  - split; [| exact Hout]. intros k r Hkr. split; [| apply Hin; exact Hkr].
+    apply Habs. apply in_map_iff. exists (k, r). split; [reflexivity | exact Hkr].
+Qed.
+
 (* a statement that mixes explicit and generated key values is refused: its generated keys cannot be identified *)
 Theorem recover_mixed_refused : forall ks last_id nrows,
   all_explicit ks = false -> all_generated ks = false -> recover (Some ks) last_id nrows = None.
